@@ -772,6 +772,21 @@ def parse_model(model: str, *, check_syntax: bool = True) -> List[Symbol]:
                             f'when parsing: {statement}'
                         )
 
+                    # Some statements compile on their own but not as part of
+                    # the body of `_evaluate()`, which is where `build_model()`
+                    # puts them e.g. `global t`, `from module import *`. Check
+                    # by compiling again, in a function with the same arguments
+                    try:
+                        compile(
+                            'def _evaluate(self, t, *, errors, catch_first_error, iteration, **kwargs):\n'
+                            + textwrap.indent(e, '    '),
+                            '<string>',
+                            'exec',
+                        )
+                    except SyntaxError:
+                        problem_statements.append((i, statement, e))
+                        break
+
         symbols_by_equation.append(equation_symbols)
 
     # Error if any problem statements found
